@@ -49,6 +49,102 @@ CLAUSES = [
     ("no selection modifies its source", "source-modified", "snapshot before / after every step; history probes"),
 ]
 
+# boundaries of the quantified dimensions, each hit deliberately in every run by boundary_cases()
+BOUNDARIES = [
+    "container shape: 1x1, 1xk, kx1, square (rows == columns), all cells empty, a width-0 column (met), "
+    "0 rows / 0 columns (only reachable through an emptying selection: applied before the boundary index)",
+    "int index: 0, -1, n-1, -n (in range) and n, -n-1 (must raise)",
+    "slice: [0:n] (whole axis, returns the container itself), [0:n+1], [n:n], [n-1:n], [-n:], [-n-1:], [k:k], "
+    "[1:0], steps 1, 2, n-1, n, n+1 and the must-raise steps 0 and -1",
+    "int list / tensor: [], one element, the whole axis in order, reversed, a contiguous run, a run with a DUPLICATE "
+    "compensated by a gap (sorted, last-first == len-1: looks contiguous to an end-point test), all the same element, "
+    "negative entries through zero, one entry out of range at either end",
+    "range: empty (start == stop), one element, the whole axis, step > n, counting down to 0, entries through zero",
+    "mask: all False, all True, exactly one True (first / last), wrong length by one (must raise)",
+    "pair access: (int, int) at the four corners and one past each; (int, non-int) and (non-int, int)",
+    "entry points: each boundary index through getitem / select / index_select; narrow at (0, n), (0, n+1), (n, 0), "
+    "(n-1, 1), (k, 0)",
+]
+
+
+def boundary_indices(n):
+    """index expressions sitting on the boundaries of an axis of length n (JSON form)"""
+    out = [{"t": "int", "i": i} for i in sorted({0, -1, n - 1, -n, n, -n - 1})]
+    for a, b in [(0, n), (0, n + 1), (n, n), (n - 1, n), (-n, None), (-n - 1, None), (1, 1), (1, 0), (None, None),
+                 (None, -n), (-1, None)]:
+        out.append({"t": "slice", "a": a, "b": b, "s": None})
+    for st in sorted({1, 2, max(1, n - 1), max(1, n), n + 1}):
+        out.append({"t": "slice", "a": None, "b": None, "s": st})
+        out.append({"t": "slice", "a": 1, "b": None, "s": st})
+    out += [{"t": "slice", "a": None, "b": None, "s": 0}, {"t": "slice", "a": None, "b": None, "s": -1}]
+    lists = [[], list(range(n)), list(range(n))[::-1], [n - 1] * 3 if n else [0], [-1, 0] if n else [0],
+             list(range(-n, 0)), [n], [-n - 1], [0, n], [0] if n else []]
+    if n >= 1:
+        lists += [[0], [n - 1], [-n]]
+    if n >= 3:
+        lists += [[0, 0, 2], [0, 2, 2], [n - 3, n - 1, n - 1], [1, 2], [0, 1, 2], [-n, 1 - n + 1, 2 - n + 1]]
+    if n >= 4:
+        lists += [[0, 2, 2, 3], [0, 0, 2, 3], [1, 1, 3]]
+    for l in lists:
+        out.append({"t": "list", "l": l})
+        out.append({"t": "tensor", "l": l})
+    for a, b, st in [(0, 0, 1), (0, 1, 1), (0, n, 1), (0, n, n + 1), (n - 1, -1, -1), (-1, 1, 1), (-n, 0, 1),
+                     (0, n + 1, 1), (n, n, 1), (n - 1, n, 1)]:
+        out.append({"t": "range", "a": a, "b": b, "s": st})
+    masks = [[False] * n, [True] * n, [True] + [False] * (n - 1) if n else [], [False] * (n - 1) + [True] if n else [],
+             [True] * (n + 1), [True] * max(0, n - 1)]
+    for m in masks:
+        out.append({"t": "mask", "m": m})
+    return out
+
+
+def boundary_cases(rng):
+    """A deterministic stream over small containers: every boundary index on both axes through every entry point,
+    directly and after an emptying selection on the same / the other axis."""
+    shapes = [(1, 1), (1, 3), (3, 1), (3, 3), (4, 3), (2, 4)]
+    cases = []
+    for kind in ("mnt", "met"):
+        for si, (nr, nc) in enumerate(shapes):
+            dtype = "int" if (si % 2 == 0) else "float"
+            cells = R.gen_cells(rng, kind, dtype, nr, nc, all_empty=(si == 3 and kind == "mnt"))
+            if kind == "met" and nc >= 2:
+                for row in cells:          # a width-0 column
+                    row[1] = []
+            for dim, n in ((0, nr), (1, nc)):
+                for ix in boundary_indices(n):
+                    vias = ["getitem", "select"] + (["index_select"] if ix["t"] in ("tensor", "mask") else [])
+                    via = vias[len(cases) % len(vias)]
+                    d = [dim, dim - 3][len(cases) % 2] if via != "getitem" else dim
+                    cases.append({"kind": kind, "dtype": dtype, "cells": cells,
+                                  "prog": [{"op": "sel", "dim": d, "idx": ix, "via": via}], "boundary": True})
+                for start, ln in [(0, n), (0, n + 1), (n, 0), (max(0, n - 1), min(1, n)), (1 if n else 0, 0)]:
+                    cases.append({"kind": kind, "dtype": dtype, "cells": cells,
+                                  "prog": [{"op": "narrow", "dim": dim, "start": start, "len": ln}], "boundary": True})
+            # corners of single-cell access and mixed pairs
+            for i in (0, -1, nr - 1, -nr, nr, -nr - 1):
+                for j in (0, -1, nc - 1, -nc, nc, -nc - 1):
+                    cases.append({"kind": kind, "dtype": dtype, "cells": cells, "boundary": True,
+                                  "prog": [{"op": "pair", "i": {"t": "int", "i": i}, "j": {"t": "int", "i": j}}]})
+            cases.append({"kind": kind, "dtype": dtype, "cells": cells, "boundary": True,
+                          "prog": [{"op": "pair", "i": {"t": "int", "i": 0}, "j": {"t": "slice", "a": None, "b": None, "s": None}}]})
+            cases.append({"kind": kind, "dtype": dtype, "cells": cells, "boundary": True,
+                          "prog": [{"op": "pair", "i": {"t": "list", "l": []}, "j": {"t": "int", "i": -1}}]})
+            # through an empty result: empty the rows / the columns, then a boundary index on either axis
+            empt = [{"t": "slice", "a": 1, "b": 1, "s": None}, {"t": "list", "l": []}, {"t": "mask", "m": None},
+                    {"t": "slice", "a": nr + nc, "b": None, "s": 2}]
+            for edim, en in ((0, nr), (1, nc)):
+                for e in empt:
+                    e = dict(e)
+                    if e["t"] == "mask":
+                        e["m"] = [False] * en
+                    for dim in (0, 1):
+                        n2 = 0 if dim == edim else (nr if dim == 0 else nc)
+                        for ix in boundary_indices(n2)[::3]:
+                            cases.append({"kind": kind, "dtype": dtype, "cells": cells, "boundary": True,
+                                          "prog": [{"op": "sel", "dim": edim, "idx": e, "via": "getitem"},
+                                                   {"op": "sel", "dim": dim, "idx": ix, "via": "select"}]})
+    return cases
+
 
 def pick_via(rng, ix):
     """public entry point used for a selection step"""
@@ -198,6 +294,15 @@ def exhaustive_single_ops(tier):
 def generate(rng, tier):
     n = 2500 if tier == "quick" else 40000
     cases = [gen_case(rng, tier) for _ in range(n)]
+    bc = boundary_cases(rng)
+    if tier == "quick":
+        # a rotating sixth of the boundary stream per quick run (all of it in the thorough tier); the
+        # end-point-contiguous index lists are always kept
+        def dupgap(c):
+            return any(st.get("idx") and st["idx"]["t"] in ("list", "tensor") and len(st["idx"]["l"]) >= 3
+                       and len(set(st["idx"]["l"])) < len(st["idx"]["l"]) for st in c["prog"])
+        bc = [c for c in bc if dupgap(c) or rng.chance(0.17)]
+    cases += bc
     if tier == "thorough":
         cases += exhaustive_single_ops(tier)
     return cases
@@ -410,9 +515,16 @@ def stats(cases, obss):
                 d.setdefault("dims", {})
                 d["dims"][dk] = d["dims"].get(dk, 0) + 1
         steps = o.get("steps", [])
+        if c.get("boundary"):
+            d["boundary_cases"] = d.get("boundary_cases", 0) + 1
+            for st in c["prog"]:
+                ix = st.get("idx")
+                if ix and ix["t"] in ("list", "tensor") and len(ix["l"]) >= 3 and sorted(ix["l"]) == ix["l"] \
+                        and len(set(ix["l"])) < len(ix["l"]) and ix["l"][-1] - ix["l"][0] == len(ix["l"]) - 1:
+                    d["dup_gap_runs"] = d.get("dup_gap_runs", 0) + 1
         if any(st.get("probes") for st in c["prog"]):
             d["with_history_probes"] = d.get("with_history_probes", 0) + 1
-        if any(not s["ok"] for s in steps):
+        if any(not s["ok"] for s in steps) and not c.get("boundary"):
             d["error_cases"] += 1
         if any(s["ok"] and "nr" in s and s["nr"] * s["nc"] == 0 for s in steps[:-1]):
             d["through_empty"] += 1
@@ -479,6 +591,10 @@ def sanity(cases, obss):
         probs.append("pair access never drawn")
     if d["through_empty"] == 0:
         probs.append("no program passes through an empty result")
+    if d.get("boundary_cases", 0) < 300:
+        probs.append(f"only {d.get('boundary_cases', 0)} boundary cases drawn")
+    if d.get("dup_gap_runs", 0) < 4:
+        probs.append("sorted index lists with a duplicate compensated by a gap (end-point-contiguous) not drawn")
     if d.get("with_history_probes", 0) == 0:
         probs.append("no program interleaves discarded operations on its intermediate containers")
     for kind in ("mnt/int", "mnt/float", "met/int", "met/float"):
